@@ -123,7 +123,8 @@ class KernelTranslator:
         self.lets = []
         self.counter = {}
         self.extra_params = []   # (lean name, type)
-        self.fn_params = []      # uninterpreted binary functions (fluid property calls)
+        self.fn_params = []      # uninterpreted functions (fluid property calls)
+        self.fn_arity = {}
         self.uses_rows = set()
 
     # -- utilities ---------------------------------------------------------------------------
@@ -210,6 +211,8 @@ class KernelTranslator:
                 return Val("num", "(pi : α)")
             if isinstance(node.value, ast.Name) and node.value.id == "np" and node.attr == "nan":
                 return Val("num", "((ofN 0) / (ofN 0) : α)")
+            if node.attr in self.fold and isinstance(node.value, ast.Name) and node.value.id == "fluid":
+                return Val("const", pyconst=self.fold[node.attr])
             return Val("err", msg="%s:%s: attribute %s" % (self.path, node.lineno, node.attr))
         if isinstance(node, ast.UnaryOp):
             v = self.expr(node.operand, env)
@@ -385,9 +388,22 @@ class KernelTranslator:
                     return v
             if "Z" not in self.fn_params:
                 self.fn_params.append("Z")
+                self.fn_arity["Z"] = 2
             if len(vs) == 1:
                 return Val("err", msg="%s:%s: one-argument compressibility" % (self.path, node.lineno))
             return Val("num", "(Z %s %s)" % (self.num(vs[0], node), self.num(vs[1], node)))
+        if name == ".get_density" and len(args) == 1:
+            v = self.expr(args[0], env)
+            if v.kind == "err":
+                return v
+            if "Rho" not in self.fn_params:
+                self.fn_params.append("Rho")
+                self.fn_arity["Rho"] = 1
+            return Val("num", "(Rho %s)" % self.num(v, node))
+        if name == "get_from_nodes_corrected" and len(args) == 1:
+            return Val("idx_from_corr")
+        if name == "get_to_nodes_corrected" and len(args) == 1:
+            return Val("idx_to_corr")
         if name == "np.isnan":
             v = self.expr(args[0], env)
             if v.kind == "err":
@@ -483,6 +499,8 @@ class KernelTranslator:
             return "to"
         if v.kind == "bool":
             return "self"
+        if v.kind in ("idx_from_corr", "idx_to_corr"):
+            return v.kind
         raise self.err(ctx, "unsupported row selector for pit read")
 
     def col(self, pit, who, colnode, ctx):
@@ -492,6 +510,11 @@ class KernelTranslator:
                 raise self.err(ctx, "branch pit read through node index")
             self.uses_rows.add("b")
             return Val("num", "b.%s" % c)
+        if who in ("idx_from_corr", "idx_to_corr"):
+            # get_from_nodes_corrected / get_to_nodes_corrected: the node where the fluid enters / leaves the branch
+            self.uses_rows.update(("b", "nf", "nt"))
+            a, o = ("nt", "nf") if who == "idx_from_corr" else ("nf", "nt")
+            return Val("num", "(sel (neq b.FROM_NODE_T_SWITCHED (ofN 0)) %s.%s %s.%s)" % (a, c, o, c))
         if who == "self":
             self.uses_rows.add("n")
             return Val("num", "n.%s" % c)
@@ -765,7 +788,7 @@ class KernelTranslator:
             rows.append("(nf : NodeRow α)")
         if "nt" in self.uses_rows:
             rows.append("(nt : NodeRow α)")
-        params = " ".join(rows + ["(%s : α → α → α)" % n for n in self.fn_params] +
+        params = " ".join(rows + ["(%s : %s)" % (n, "α → α" if self.fn_arity.get(n, 2) == 1 else "α → α → α") for n in self.fn_params] +
                           ["(%s : %s)" % (n, t) for n, t in self.extra_params])
         fields = []
         for nm, v in outs:
@@ -787,6 +810,7 @@ class KernelTranslator:
             "lean_name": self.lean_name, "pyfile": os.path.relpath(self.path, REPO), "pyfunc": self.funcname,
             "domain": self.domain, "rows": sorted(self.uses_rows, key=["b", "n", "nf", "nt"].index),
             "extra": [[n, t] for n, t in self.extra_params], "fn_params": list(self.fn_params),
+            "fn_arity": dict(self.fn_arity), "fold": {k: v for k, v in self.fold.items() if isinstance(v, (bool, int, float))},
             "outputs": [[self.pyname(nm), t] for nm, t in fields],
         }
         return "\n".join(lines) + "\n", meta
